@@ -677,9 +677,12 @@ def gen_module_props(rng, nodespec):
     for ms in nodespec['modules']:
         for layer in ms['layers']:
             for p in layer['params']:
-                if 'dt' not in p or p.get('constant') or p['attr'] in ms['cfg'] or rng.random() > 0.2:
+                # (a scaled parameter more often than the others: its description is computed - limit / scale, rounded -,
+                # not copied, and whether that computation is right shows only on limits with an inexact quotient)
+                if 'dt' not in p or p.get('constant') or p['attr'] in ms['cfg'] or \
+                        rng.random() > (0.6 if p['dt'][0] == 'scaled' else 0.2):
                     continue
-                over = gen_datatype_cfg(rng, p['dt']) if rng.random() < 0.7 else None
+                over = gen_datatype_cfg(rng, p['dt']) if rng.random() < (0.9 if p['dt'][0] == 'scaled' else 0.7) else None
                 if over:
                     ms['cfg'][p['attr']] = over
                 else:
@@ -805,7 +808,37 @@ def run_generated(case):
     node, box, classes = c04.build_node(case['nodespec'])
     if node.errors or set(node.secnode.modules) != {ms['name'] for ms in case['nodespec']['modules']}:
         return None
-    return run_node(random.Random(case['seed'] + 1), node, box, case['nodespec'], classes, big=bool(case.get('big')))
+    data = run_node(random.Random(case['seed'] + 1), node, box, case['nodespec'], classes, big=bool(case.get('big')))
+    data['cfgstats'] = cfg_stats(case['nodespec'])
+    return data
+
+
+DT_PROP_KEYS = ('min', 'max', 'unit', 'absolute_resolution', 'maxchars', 'isUTF8', 'maxbytes', 'maxlen', 'minlen')
+
+
+def cfg_stats(nodespec):
+    """evidence: which datatype properties the configuration sets, on which kind of datatype; for scaled limits the
+    quotient class of the configured limit"""
+    out = []
+    for ms in nodespec['modules']:
+        dts = {p['attr']: p['dt'] for layer in ms['layers'] for p in layer['params'] if 'dt' in p}
+        for attr, over in ms['cfg'].items():
+            dt = dts.get(attr)
+            if dt is None or not isinstance(over, dict):
+                continue
+            for key in over:
+                if key in DT_PROP_KEYS:
+                    out.append('cfg.datatype-property.%s.%s' % (dt[0], key))
+                    if dt[0] == 'scaled' and key in ('min', 'max'):
+                        k = int(round(over[key] / dt[1]))
+                        out.append('cfg.scaled-limit.%s.%s%s' % (key, quotient_class(k, dt[1]) if k * dt[1] == over[key] else 'not-aligned',
+                                                                 '' if k >= 0 else '.negative'))
+        for dt in dts.values():
+            if dt[0] == 'scaled':
+                for key, x in (('min', dt[2]), ('max', dt[3])):
+                    k = int(round(x / dt[1]))
+                    out.append('class.scaled-limit.%s.%s' % (key, quotient_class(k, dt[1]) if k * dt[1] == x else 'not-aligned'))
+    return out
 
 
 def evaluate(ctx, res, label, case, data, model, judge):
@@ -841,6 +874,8 @@ def evaluate(ctx, res, label, case, data, model, judge):
     for m in rec['node']['modules']:
         for row in (m.get('init') or {}).get('cfg', []):
             res.count('cfg.module-property.' + row[0])
+    for key in data.get('cfgstats', []):
+        res.count(key)
     ro = sum(1 for m in data['report1'] for a in m['accs'] if a['readonly'] is True)
     const = sum(1 for m in data['report1'] for a in m['accs'] if a['constant'] is not None)
     res.count('described.readonly', ro)
